@@ -2,12 +2,12 @@
 (* C17: control-plane messages through the real encoders/parsers (harness wirerig.rs).
    A decoded value must equal the encoded one; a corrupted encoding must be rejected or decode to the
    original value. *)
-EXTENDS Naturals, Sequences, FiniteSets, TLC, Json, IOUtils, SequencesExt
+EXTENDS Wire, TLC, Json, IOUtils
 
 Rec == ndJsonDeserialize(IOEnv.TRACE)
 N == Len(Rec)
-VARIABLES l, viol
-vars == <<l, viol>>
+VARIABLES l, viol, div
+vars == <<l, viol, div>>
 
 Mon(e) ==
     LET p == e.parsed  same == p.ok /\ p.v = e.orig IN
@@ -20,12 +20,25 @@ Mon(e) ==
             (IF ~p.ok \/ same THEN {} ELSE {"C17.corruption_accepted"})
       [] OTHER -> {}
 
-Init == l = 1 /\ viol = {}
+\* L2: the parser specified in Wire.tla applied to the same tokens must give the real parser's answer
+\* (cluster metadata in the uncompressed format only; the configuration section is compared by acceptance only)
+Agree(e) ==
+    LET d == Dec(e.toks, e.pairok)  p == e.parsed IN
+    IF ~p.ok THEN ~d.ok
+    ELSE /\ d.ok
+         /\ d.epoch = p.v.epoch /\ d.force = p.v.force /\ d.name = p.v.name
+         /\ d.local = ToSet(p.v.local) /\ d.peer = ToSet(p.v.peer)
+         /\ d.extok = p.config_ok
+Div(e) == IF "toks" \in DOMAIN e /\ e.parsed.why # "PANIC" /\ ~Agree(e) THEN {"L2.wire_parser_differs"} ELSE {}
+
+Init == l = 1 /\ viol = {} /\ div = {}
 Step ==
     /\ l <= N
     /\ viol' = viol \cup {<<l, x>> : x \in Mon(Rec[l])}
+    /\ div' = div \cup {<<l, x>> : x \in Div(Rec[l])}
     /\ l' = l + 1
-    /\ (l = N) => JsonSerialize(IOEnv.OUT, [n |-> N, viol |-> SetToSeq({[line |-> v[1], mon |-> v[2]] : v \in viol'}), div |-> <<>>])
+    /\ (l = N) => JsonSerialize(IOEnv.OUT, [n |-> N, viol |-> SetToSeq({[line |-> v[1], mon |-> v[2]] : v \in viol'}),
+                                             div |-> SetToSeq({[line |-> v[1], mon |-> v[2]] : v \in div'})])
 Spec == Init /\ [][Step]_vars
 Consumed == TLCGet("stats").diameter - 1 = N
 =============================================================================
